@@ -34,6 +34,10 @@ def gen_data(seed_parts, L, r):
 
 def model_bin(opn, A, B):
     """matrix-by-matrix application; B may be ndarray (L|1,r,r), (r,r), (L,1,1) or scalar."""
+    if not np.isscalar(B) and getattr(B, 'ndim', 0) == 3 and A.shape[0] == 1 and B.shape[0] > 1:
+        # a length-1 (density-like) array on the left of a length-L array: one result matrix per matrix of B
+        f = {'add': operator.add, 'sub': operator.sub, 'mul': operator.mul, 'div': operator.truediv}[opn]
+        return np.stack([f(A[0], B[l]) for l in range(B.shape[0])])
     L = A.shape[0]
     out = np.empty_like(A)
     f = {'add': operator.add, 'sub': operator.sub, 'mul': operator.mul, 'div': operator.truediv}[opn]
@@ -89,7 +93,7 @@ class World(BaseWorld):
             o = {'op': k, 'i': ro.randrange(16)}
             if k == 'bin':
                 o.update(fn=ro.choice(sorted(BIN)), inplace=ro.random() < p_inplace,
-                         kind=ro.choices(['scalar', 'ndarray', 'ma', 'ma1', 'self'], [2, 2, 5, 2, 1])[0],
+                         kind=ro.choices(['scalar', 'ndarray', 'ma', 'ma1', 'self', 'ma1_left'], [2, 2, 5, 2, 1, 1])[0],
                          j=ro.randrange(16), nd=ro.choice(['full', 'rr', 'L11', 'r', 'r', 'r1', '1r', '0d', 'list_r']),
                          scalar=ro.choice([2.0, -0.5, 3, 0.25, 1.5]))
             elif k == 'dot':
@@ -235,6 +239,13 @@ class World(BaseWorld):
                 elif kind == 'ma1':
                     B_lib, B_model, other_space = dens['ma'], dens['model'], dens['space']
                     ctx.probe('broadcast_len1')
+                elif kind == 'ma1_left':
+                    # density.pair * totalCorr: the length-1 NonSpatial array is the LEFT operand (out of place only: an
+                    # in-place op cannot grow its left operand)
+                    B_lib, B_model, other_space = A['ma'], A['model'], A['space']
+                    A = dens
+                    op = dict(op, inplace=False)
+                    ctx.probe('broadcast_len1_left')
                 elif kind == 'self':
                     B_lib, B_model, other_space = A['ma'], A['model'], A['space']
                 else:
@@ -248,11 +259,13 @@ class World(BaseWorld):
                         if float(np.min(np.abs(bm))) < 1e-3:
                             ctx.log(skipped='small divisor')
                             continue
-                    if np.shape(B_model) and np.shape(B_model)[0] not in (A['model'].shape[0], 1, r):
+                    if np.shape(B_model) and np.shape(B_model)[0] not in (A['model'].shape[0], 1, r) and not \
+                            (A['model'].shape[0] == 1 and np.ndim(B_model) == 3):
                         ctx.log(skipped='length mismatch')
                         continue
-                    if not np.isscalar(B_model) and B_model.ndim == 3 and B_model.shape[0] != A['model'].shape[0] and A['model'].shape[0] == 1:
-                        ctx.log(skipped='left operand shorter')
+                    if not np.isscalar(B_model) and B_model.ndim == 3 and B_model.shape[0] != A['model'].shape[0] and A['model'].shape[0] == 1 \
+                            and op['inplace']:
+                        ctx.log(skipped='left operand shorter (in place)')
                         continue
                     want = model_bin(fn, A['model'], B_model)
                     mag[0] = max(float(np.max(np.abs(A['model']))), float(np.max(np.abs(B_model))))
@@ -462,7 +475,7 @@ class World(BaseWorld):
     def expected_probes(self, tier):
         ex = ['broadcast_len1', 'refused_inplace', 'refused_outofplace', 'refused_dot', 'get_copy', 'two_inplace_same_array',
               'unknown_type_get', 'unknown_type_set', 'setitem_offdiag', 'invert', 'invert_i', 'length1', 'identity_array_in_pool',
-              'identity_created_after_inplace_ops', 'nd_1d_operand_length_equals_rank', 'unknown_type_looks_like_index', 'data_layout_F', 'data_layout_swap', 'data_layout_block', 'index_api_get', 'index_api_getMatrix', 'index_api_setMatrix', 'invert_default_args', 'nd_r', 'nd_r1', 'nd_1r', 'nd_0d', 'nd_list_r',
+              'identity_created_after_inplace_ops', 'nd_1d_operand_length_equals_rank', 'unknown_type_looks_like_index', 'broadcast_len1_left', 'data_layout_F', 'data_layout_swap', 'data_layout_block', 'index_api_get', 'index_api_getMatrix', 'index_api_setMatrix', 'invert_default_args', 'nd_r', 'nd_r1', 'nd_1r', 'nd_0d', 'nd_list_r',
               'nd_full', 'nd_rr', 'nd_L11']
         if tier == 'thorough':
             for fn in sorted(BIN):
